@@ -99,7 +99,7 @@ def check_seq(prop, tier, seed, scale=1.0):
         # contradicts C01/C07/C03 as much as C05, but no single-threaded history can reach it
         C.build_sched("vrelease")
         n_ex = max(2000, int((150000 if tier == "quick" else 10000000) * scale))
-        r = C.run_batch("sched", "vrelease", seed, tag + 300, "sched", n_ex, 0, extra_args=["--per-prog", "8"])
+        r = C.run_batch("sched", "vrelease", seed, tag + 300, "sched", n_ex, 0, extra_args=["--per-prog", "8"] + C.sched_extra())
         found += [("vrelease", rec) for rec in r["violations"]]
         st = C.merge_summaries(r["summaries"])
         sched_cov = {"executions": st["runs"], "scheduling_points": st["steps"], "preemptions": st.get("x_preemptions", 0),
@@ -240,7 +240,7 @@ def check_sched(prop, tier, seed, scale=1.0):
     for v in variants:
         C.build_sched(v)
         # the debug build of the shuttle runtime is ~10x slower: a tenth of the executions there
-        r = C.run_batch("sched", v, seed, tag + (0 if v == "vrelease" else 5000), "sched", runs if v == "vrelease" else max(1000, runs // 10), 0, extra_args=["--per-prog", str(per_prog)])
+        r = C.run_batch("sched", v, seed, tag + (0 if v == "vrelease" else 5000), "sched", runs if v == "vrelease" else max(1000, runs // 10), 0, extra_args=["--per-prog", str(per_prog)] + C.sched_extra())
         found += [(v, rec) for rec in r["violations"]]
         sums += r["summaries"]
         crashes += r["crashes"]
